@@ -26,7 +26,9 @@ func (w *Worker) genC04(rc *simapi.RunConfig) {
 	}
 	wl := w.genWorkload(r, pkgs, true)
 	cliIndex := rc.Index - rc.Index/3
+	saturation := false
 	if isInterplay(pkgs[0]) && (cliIndex/len(w.visitSchedule()))%2 == 0 && cliIndex%3 == 0 {
+		saturation = true
 		// saturation run: every checker at once over an interplay package, no
 		// semaphore ordering between any two of them
 		wl = &Workload{EnableAll: true, Params: wl.Params, Concurrency: 2 * len(w.infos)}
@@ -45,6 +47,18 @@ func (w *Worker) genC04(rc *simapi.RunConfig) {
 	v := genVariant(sr, false)
 	if rc.Index%11 == 0 {
 		v = serialVariant()
+	}
+	if saturation {
+		// All workers must be alive at the same time: the race detector reuses
+		// the thread id of a finished goroutine for the next one created, and
+		// accesses of the two then look like accesses of one thread. Main first
+		// (spawn everything, then run the workers in a seeded order, with up to
+		// two priority-change points) keeps them all alive.
+		v = simapi.Variant{MapPolicy: v.MapPolicy, MapSeed: v.MapSeed,
+			Sched: &simrt.SchedConfig{Strategy: simrt.StratPrio, PrioRule: simrt.PrioRandomMainHi, PrioSeed: sr.Uint64()}}
+		for i := 0; i < int(sr.Uint64()%3); i++ {
+			v.CPFrac = append(v.CPFrac, sr.Float64())
+		}
 	}
 	rc.Variants = []simapi.Variant{v}
 }
